@@ -169,6 +169,11 @@ BeginTx(S, sender) ==
             !.rec  = S.r.amsterdam,
             !.racc = {}, !.rslot = NoSlots]
 
+(* Prepare with a destination and an EIP-2930 access list naming slot k of the destination *)
+BeginTxL(S, sender, dst, k) ==
+  LET T == BeginTx(S, sender) IN
+  IF S.r.berlin THEN [T EXCEPT !.ala = {sender, dst}, !.als = [NoSlots EXCEPT ![dst] = {k}]] ELSE T
+
 (* R6 *)
 Finalised(r, ac, destructed) ==
   IF destructed THEN (IF r.amsterdam /\ ac.bal # 0 THEN [Fresh EXCEPT !.bal = ac.bal] ELSE Absent)
